@@ -493,8 +493,9 @@ def iter_bins_with_edges(bins, edges):
     .. versionadded:: 0.5
        made public.
     """
-    # todo: only a list or also a tuple, an array?
-    if not isinstance(edges[0], list):
+    # one-dimensional edges are a sequence of numbers
+    # (the same test as in unify_1_md and histogram.__init__)
+    if not hasattr(edges[0], '__iter__'):
         edges = [edges]
     bins_sizes = [len(edge)-1 for edge in edges]
     indices = [list(range(nbins)) for nbins in bins_sizes]
